@@ -35,6 +35,23 @@ Theorem c17_stable : forall hash ops o key,
 Proof. intros hash ops o key H. rewrite (stable hash _ o (inv_run hash ops) H). reflexivity. Qed.
 Print Assumptions c17_stable.
 
+(* ... and so does a whole run of such calls (the rule Run.v applies between two lookups
+   separated by quiet calls) *)
+Theorem c17_stable_run : forall hash ops more key,
+  (forall pre o post, more = pre ++ o :: post ->
+     forall m, In m (nodes (run hash (ops ++ pre ++ [o]))) <-> In m (nodes (run hash (ops ++ pre)))) ->
+  get_node_by hash key (run hash (ops ++ more)) = get_node_by hash key (run hash ops).
+Proof.
+  intros hash ops more key H.
+  assert (E : run hash (ops ++ more) = run hash ops).
+  { unfold run at 1. rewrite fold_left_app. fold (run hash ops).
+    apply (stable_run hash more _ (inv_run hash ops)).
+    intros pre o post E m. specialize (H pre o post E m). unfold run in H.
+    rewrite !fold_left_app in H. cbn [fold_left] in H. exact H. }
+  rewrite E. reflexivity.
+Qed.
+Print Assumptions c17_stable_run.
+
 (* "Adding a member moves a key only if it moves to the new member" *)
 Theorem c17_add_moves_only_to_new : forall hash ops x key n',
   get_node_by hash key (run hash (ops ++ [Add x])) = Some n' ->
